@@ -151,8 +151,8 @@ for _k, _v in {"C05": " c05.float_ctor: from_<scale>_seconds/_days of the six sc
                "C07": " c07.float_ctor: from_et_seconds / from_tdb_seconds; the days/centuries-since-J2000 accessors are compared with the duration accessors."}.items():
     AUDIT2[_k] = AUDIT2.get(_k, "") + _v
 # order independence (DESIGN.md §1 Mode A')
-for _k in ["C05", "C06", "C07", "C08", "C09", "C10", "C12", "C13", "C14", "C16", "C19", "C20"]:
-    AUDIT2[_k] = AUDIT2.get(_k, "") + " Order independence: every ordered pair of a menu of judged operations is run back to back on one thread and the second is judged (exhaustive depth-2 call sequences; a memo or other hidden state shows here)."
+for _k in ["C%02d" % i for i in range(1, 21)]:
+    AUDIT2[_k] = AUDIT2.get(_k, "") + " Order independence (<id>.order): every ordered pair of a menu of judged operations is run back to back on one thread and the second is judged; when the library sources contain shared mutable state (scanned on every run; none in the unchanged tree) the bound is raised to fresh-thread pairs, all 4-call sequences over a sub-menu, strided walks, repetitions, cross-API preludes and fresh-process runs."
 for _k, _v in AUDIT2.items():
     AUDIT[_k] = AUDIT.get(_k, "") + _v
 for _k, _v in AUDIT.items():
